@@ -23,16 +23,17 @@ type swapSpec struct {
 }
 
 type swapChecker struct {
-	c     *Ctx
-	r     *RuleResult
-	pkg   *packages.Package
-	fd    *ast.FuncDecl
-	name  string
-	slots map[types.Object]bool // param object, field object, local aliases
-	peers map[*types.Func]int   // functions in the rule's scope -> index of their slot parameter
-	par   map[ast.Node]ast.Node
-	sfn   *ssa.Function
-	pr    *Prover
+	c       *Ctx
+	r       *RuleResult
+	pkg     *packages.Package
+	fd      *ast.FuncDecl
+	name    string
+	slots   map[types.Object]bool // param object, field object, local aliases
+	peers   map[*types.Func]int   // functions in the rule's scope -> index of their slot parameter
+	par     map[ast.Node]ast.Node
+	sfn     *ssa.Function
+	pr      *Prover
+	visited map[*types.Func]bool
 }
 
 // exprEq: structural equality of call-free typed expressions.
@@ -380,6 +381,15 @@ func (s *swapChecker) run() {
 					}
 				}
 			}
+			// a helper of the same package: the rule follows the slice into it
+			if callee != nil && callee.Pkg() == s.pkg.Types {
+				for ai, a := range x.Args {
+					if a == n && s.follow(callee, ai) {
+						s.r.inst("%s: passes the state slice to helper %s (rule applied there)", s.name, callee.Name())
+						return false
+					}
+				}
+			}
 			s.r.undecided("%s passes the state slice to %s at %s; that callee is outside the rule's scope", s.name, s.render(x.Fun), s.c.pos(x.Pos()))
 		case *ast.AssignStmt:
 			for i, l := range x.Lhs {
@@ -428,6 +438,37 @@ func (s *swapChecker) run() {
 }
 
 func (s *swapChecker) mayReassign() bool { return false }
+
+// follow applies the rule to a same-package helper that receives the state slice as argument ai.
+func (s *swapChecker) follow(callee *types.Func, ai int) bool {
+	if s.visited == nil {
+		s.visited = map[*types.Func]bool{}
+	}
+	if s.visited[callee] {
+		return true
+	}
+	var fd *ast.FuncDecl
+	for _, f := range s.pkg.Syntax {
+		for _, d := range f.Decls {
+			if x, ok := d.(*ast.FuncDecl); ok && s.pkg.TypesInfo.Defs[x.Name] == types.Object(callee) && x.Body != nil {
+				fd = x
+			}
+		}
+	}
+	sig := callee.Type().(*types.Signature)
+	if fd == nil || ai >= sig.Params().Len() || sig.Variadic() {
+		return false
+	}
+	s.visited[callee] = true
+	h := &swapChecker{c: s.c, r: s.r, pkg: s.pkg, fd: fd, slots: map[types.Object]bool{sig.Params().At(ai): true}, peers: s.peers, visited: s.visited}
+	h.name = s.pkg.Name + "." + callee.Name()
+	h.sfn = s.c.Prog.FuncValue(callee)
+	if h.sfn != nil {
+		h.pr = NewProver(s.c, h.sfn)
+	}
+	h.run()
+	return true
+}
 
 func (s *swapChecker) judgeCell(ix *ast.IndexExpr, handled map[ast.Stmt]bool, nStores *int) {
 	var n ast.Node = ix
